@@ -72,7 +72,7 @@ def run(ctx):
         "the models of ManualHeap / VM surfaces / std.bytes are the code: checked by the contract tie on seeded histories",
         "accounting is the manual heap's bytes_allocated(); std.bytes buffers are not charged anywhere in the code (noted in notes/C09.md)",
     ]
-    proved = ctx.prove("C09", extracted=["ManualMem", "ValueConsts"])
+    proved = ctx.prove("C09", extracted=["ManualMem", "ValueConsts", "MemChecks"])
     if ctx.tier == "thorough" and proved:
         ctx.coqchk("C09")
     ok, out = vlib.coq_make(["Base/CaseCheck.vo", "Model/ManualHeapObs.vo", "Model/BytesObs.vo"])
@@ -81,8 +81,8 @@ def run(ctx):
         ctx.log(out[-2000:])
         return
     quick = ctx.tier == "quick"
-    plan = {"api": 400, "forged": 200, "builtin": 250, "opcode": 350, "bytes": 500} if quick else \
-           {"api": 1200, "forged": 1500, "builtin": 500, "opcode": 800, "bytes": 1200}
+    plan = {"api": 400, "forged": 200, "natfn": 300, "builtin": 200, "opcode": 350, "bytes": 500} if quick else \
+           {"api": 1200, "forged": 1500, "natfn": 1500, "builtin": 500, "opcode": 800, "bytes": 1200}
     maxlen = 200 if quick else 400
     profiles = ["dev"] if quick else ["dev", "release"]
     total, nontrivial, steps = 0, set(), 0
